@@ -66,7 +66,7 @@ def poke_histories(h, i, share):
 
 def run(ctx):
     rng = ctx.rng
-    n = ctx.n(420, 4200)
+    n = ctx.n(420, 2800)
     histories = CORPUS + [G.history_c10(rng) for _ in range(n)]
     n = len(histories)
     want = ("read", "build", "edit", "write")
@@ -152,8 +152,8 @@ def run(ctx):
         "theorem": ["caption sets created by different reads / builds occupy disjoint, closed regions of the heap, "
                     "whatever the history (invariant over arbitrary histories of reads, builds, writes, edits)",
                     "an edit of one set changes no other set's snapshot; reads, builds and writes change no existing set",
-                    "the snapshot a read returns is a function of (reader kind, document) - not of the store, the "
-                    "history or the reader object's state",
+                    "the snapshot a read returns is a function of (reader kind, document), all six reader models - not "
+                    "of the store, the history or the reader object's state",
                     "before the repairs: shared default dicts and SCC reader reuse refute the statements (witnesses)"],
         "correspondence_only": ["the model abstracts each reader to WHAT IT ALLOCATES for a given result (which dicts "
                                 "come from default arguments, what the reader object keeps); the result itself "
